@@ -65,8 +65,16 @@ func server() *srv.Server {
 
 // suffixes of the shard's live paths and of the paths that exist only while a
 // generated publisher holds them
-var liveSuffixes = []string{"/a", "/a/x", "/b", "/cam/1/main", "/cam/1/sub"}
-var freshSuffixes = []string{"/a/new", "/c", "/cam/2/main"}
+//
+// Besides ordinary paths the sets hold the neighbours of the granted patterns
+// that a matcher working on characters instead of segments would confuse: for a
+// right P/seg or P/seg/* the paths P/segx ("/ab", "/ax", "/bb", "/a/newer"),
+// P/seg1/y ("/a1/y"), P/seg/ with a trailing slash ("/b/", "/c/" — ipchub keeps
+// the slash, so these are streams of their own, covered by the same rights) and
+// P itself ("/a" for "/a/x", "/cam" for "/cam/+/main"). Requests also spell the
+// last segment in upper case now and then (hist.spell).
+var liveSuffixes = []string{"/a", "/a/x", "/b", "/cam/1/main", "/cam/1/sub", "/ab", "/a1/y", "/b/"}
+var freshSuffixes = []string{"/a/new", "/c", "/cam/2/main", "/ax", "/a/newer", "/c/", "/bb", "/cam"}
 
 // right patterns of the generated users, relative to the shard root ("" and
 // "*" stay as they are)
@@ -224,10 +232,24 @@ func (sh *shard) restore(t evid.TB, path string) {
 	}
 }
 
+// plainLive: the live paths without the trailing-slash streams. The spelled
+// requests of canonpath_test.go use a reference canonical form that (like every
+// HTTP front end) drops a trailing slash, so for them "/b/" is a spelling of
+// "/b", not a stream of its own.
+func (sh *shard) plainLive() []string {
+	var out []string
+	for _, p := range sh.live {
+		if !strings.HasSuffix(p, "/") {
+			out = append(out, p)
+		}
+	}
+	return out
+}
+
 func (sh *shard) stream(path string) *media.Stream {
 	sh.mu.Lock()
 	defer sh.mu.Unlock()
-	return sh.streams[path]
+	return sh.streams[strings.ToLower(path)] // requests may spell a path in upper case
 }
 
 // ---------------------------------------------------------------- observations
@@ -787,7 +809,7 @@ func (sh *shard) runRTSP(c *rtspc.Client, reqs []rtspReq, overWS bool) obs {
 		// publication = the registry now holds a stream on the announced path that is
 		// not the shard's own
 		if st := media.Get(announced); st != nil && st != sh.stream(announced) {
-			o.Published = announced
+			o.Published = strings.ToLower(announced) // the registry's (canonical) spelling
 		}
 	}
 	return o
